@@ -389,7 +389,21 @@ func (c *certificateV2) fromTBSCertificate(t *TBSCertificate) error {
 }
 
 func (c *certificateV2) validate() error {
-	// Empty names are allowed
+	// The wire format requires a name of 1 to MaxNameLength bytes and does not allow empty groups,
+	// unmarshalling refuses anything else so we must never sign it.
+	if len(c.details.name) == 0 {
+		return NewErrInvalidCertificateProperties("name must not be empty")
+	}
+
+	if len(c.details.name) > MaxNameLength {
+		return NewErrInvalidCertificateProperties("name must not be longer than %d bytes", MaxNameLength)
+	}
+
+	for _, group := range c.details.groups {
+		if group == "" {
+			return NewErrInvalidCertificateProperties("groups must not contain an empty group")
+		}
+	}
 
 	if len(c.publicKey) == 0 {
 		return ErrInvalidPublicKey
